@@ -65,6 +65,74 @@ def families(tier: str) -> list[dict]:
     return fams
 
 
+def direct(case: dict) -> list[dict]:
+    """The statement itself on real executions whose running factors are NOT
+    positive semi-definite (restored from a checkpoint through the public
+    state_dict round trip): after each step, grad = V where V solves the
+    defining system for the layer's CURRENT factors as state_dict() reports
+    them -- taken positive semi-definite for the eigen method -- and the
+    gradient handed to step().  kl_clip=None, so nu = 1."""
+    import torch
+    from harness.terms import Interp
+
+    method, prediv = case['method'], case['prediv']
+    cfg = kaisa.Config(W=1, k=1, method=method, prediv=prediv, kl_clip=None,
+                       lr=0.1, model=case['model'], damping=case['damping'],
+                       decay=0.5, sgd_lr=0.0, F=1, I=1)
+    hist = [['train', 1], ['step'],
+            ['indef', case['c'], case['which'], 'alt'],
+            ['train', 1], ['step'], ['train', 1], ['step']]
+    log: list[dict] = []
+
+    def hooks(rr):
+        orig = rr.pre.step
+
+        def step():
+            orig()
+            log.append({n: {k: t.clone().double() for k, t in d.items()}
+                        for n, d in rr.pre.state_dict()['layers'].items()})
+        rr.pre.step = step
+
+    res = kaisa.run(cfg, hist, None, seed=case['seed'], on_rank=hooks)
+    if any(res.errors):
+        return [{'what': f'execution failed: {[e for e in res.errors if e][0]}'
+                 [:300], 'sig': {'cat': 'raise'}}]
+    out = []
+    rr = res.ranks[0]
+    steps = [s for s in rr.snaps if 'pre_grads' in s]
+    mods = dict(rr.model.named_modules())
+    mname = {('inverse', False): 'inverse', ('eigen', False): 'eigen',
+             ('eigen', True): 'eigen_prediv'}[(method, prediv)]
+    neg = 0
+    for si, (s, facs) in enumerate(zip(steps, log)):
+        for name, f in facs.items():
+            mod = mods[name]
+            raw = s['pre_grads']
+            d = raw[f'{name}.weight'].double().reshape(f['G'].shape[0], -1)
+            if getattr(mod, 'bias', None) is not None:
+                d = torch.cat([d, raw[f'{name}.bias'].double().reshape(-1, 1)], 1)
+            if mname == 'inverse' and si > 0:
+                continue      # (G + damping I) is singular or indefinite: the
+                # statement only fixes V where the system is well posed
+            neg += int(torch.linalg.eigvalsh(f['G']).min() < -1e-3) + \
+                int(torch.linalg.eigvalsh(f['A']).min() < -1e-3)
+            v = Interp.solve(Interp, f['A'], f['G'], d, mname,
+                             case['damping'], case['damping'])
+            got = s['grads'][f'{name}.weight'].double().reshape(
+                f['G'].shape[0], -1)
+            if getattr(mod, 'bias', None) is not None:
+                got = torch.cat(
+                    [got, s['grads'][f'{name}.bias'].double().reshape(-1, 1)], 1)
+            e = refreplay.rel(got, v)
+            if e > 5e-4:
+                out.append({'what': f'step {si} layer {name}: gradient is not '
+                            f'the solution of the defining system for the '
+                            f'current (indefinite) factors taken PSD: rel '
+                            f'{e:.2e}', 'sig': {'cat': 'grad', 'sub': 'indef'}})
+    out.append({'what': '', 'sig': {'cat': 'info_negative', 'n': neg}})
+    return out
+
+
 def main(tier: str, seed: int) -> int:
     v = Verdict(PROP, tier, seed, 'model_checking')
     fams = families(tier)
@@ -77,6 +145,27 @@ def main(tier: str, seed: int) -> int:
         do_spec=(tier != 'quick'),
         nseeds=1 if tier == 'quick' else 6)
     reffam.report(v, agg, fams, CATS)
+    from harness.par import pmap
+    cases = []
+    for i, (method, prediv) in enumerate(
+            [('eigen', True), ('eigen', False), ('inverse', False)]):
+        for j, which in enumerate(['G', 'A', 'AG']):
+            if tier == 'quick' and (i + j) % 2 == 1 and method != 'eigen':
+                continue
+            cases.append(dict(method=method, prediv=prediv, which=which,
+                              c=[0.5, 2.0][(i + j) % 2], damping=0.05,
+                              model=['mlp2', 'mixb', 'conv'][(i + j) % 3],
+                              seed=seed + i))
+    negs = 0
+    for c, lst in zip(cases, pmap(direct, cases)):
+        for b in lst:
+            if b['sig'].get('cat') == 'info_negative':
+                negs += b['sig']['n']
+                continue
+            v.violation(f'{b["what"]} :: {c}', b['sig'],
+                        replay={'direct': c})
+    v.coverage['indefinite_factor_cases'] = len(cases)
+    v.coverage['indefinite_factors_seen'] = negs
     v.coverage['rule'] += ('; for C01 each compared step checks every '
                            'registered layer against the float64 solution '
                            'and the residual of the defining system')
@@ -92,6 +181,10 @@ def main(tier: str, seed: int) -> int:
 def replay(path: str) -> int:
     rec = json.load(open(path))
     rp = rec['replay']
+    if 'direct' in rp:
+        r = direct(rp['direct'])
+        print(json.dumps(r, indent=1)[:2000])
+        return 1 if any(b['what'] for b in r) else 0
     out = refreplay.replay(kaisa.Config(**rp['cfg']), rp['h'], rec['seed'])
     print(json.dumps(out['mismatches'], indent=1, default=str)[:3000])
     return 1 if out['mismatches'] else 0
